@@ -678,10 +678,10 @@ def sessions(ctx):
         ctx.mc('MC_BumpSession', 'MC_BumpSession_thorough.cfg', coverage=False)
     # the generator runs check every clause on every history they print
     # "collide": groups of 16 histories per fresh process (quick); thorough: every history of the quick universe in a process of
-    # its own, the larger universe in groups of 8
+    # its own, the larger universe in groups of 16
     s2c_sessions(ctx, ctx.generate('MC_BumpSession', 'MC_BumpSession_genc.cfg'), 'collide', 16 if ctx.quick else 1)
     if not ctx.quick:
-        s2c_sessions(ctx, ctx.generate('MC_BumpSession', 'MC_BumpSession_genct.cfg'), 'collide', 8)
+        s2c_sessions(ctx, ctx.generate('MC_BumpSession', 'MC_BumpSession_genct.cfg'), 'collide', 16)
     probe = ctx.generate('MC_BumpSession', 'MC_BumpSession_gen.cfg' if ctx.quick else 'MC_BumpSession_gent.cfg')
     _PRINTED[:] = sorted(probe, key=json.dumps)[::max(1, len(probe) // 4)][:4]
     kinds = {e[1][2][0] if e[0] == 'call' else e[1][0] for h in probe for e in h[2]} | {e[1][0] for h in probe for e in h[2] if e[0] == 'call'}
